@@ -347,7 +347,7 @@ def parseForest (hdr : List String) (names : List String) (rows : List (List Str
 /-- `rawforest`: the typed table as given to `Synthesizer`; convertors are fitted and the table normalised in the model -/
 def parseRawForest (hdr : List String) (names : List String) (kinds : List String) (rows : List (List String)) :
     Except String (List (Conv Float) × Forest Float) := do
-  let p : P (ForestIn Float × List (Conv Float)) := do
+  let p : P (Except String (List (Conv Float) × Forest Float)) := do
     let nrows ← nN; let ncols ← nN; let _npid ← nN
     let kind ← pKind
     let salt := pHex (← nxt); let supp ← pSupp
@@ -361,13 +361,9 @@ def parseRawForest (hdr : List String) (names : List String) (kinds : List Strin
       | "r" => .real (c.map pOptF)
       | "t" => .ts (c.map fun x => if x == "n" then none else some x.toInt!)
       | _ => .str (c.map fun x => if x == "n" then none else some (if x == "-" then "" else pStr x))
-    let (convs, raw) := fitTable realEnv cols nrows
     let pids := rows.map (fun r => (r.drop ncols).map pU)
-    return ({ names := names.map pStr, raw := raw, pids := pids.toArray,
-              ap := ⟨salt, supp, ⟨ol, ou⟩, ⟨tl, tu⟩, nsd⟩, bp := ⟨sing, rg, frac, depth⟩, kind }, convs)
-  let (inp, convs) := p.run' { toks := hdr.toArray }
-  let F ← Forest.init realEnv inp
-  return (convs, F)
+    return forestOfTable realEnv cols nrows (names.map pStr) pids.toArray ⟨salt, supp, ⟨ol, ou⟩, ⟨tl, tu⟩, nsd⟩ ⟨sing, rg, frac, depth⟩ kind
+  p.run' { toks := hdr.toArray }
 
 def toks (line : String) : List String := (line.trimAscii.toString.splitOn " ").filter (· ≠ "")
 
